@@ -52,6 +52,7 @@ func init() {
 		"strconv.FormatBool":          intrFreshString,
 		"fmt.Sprintf":                 intrFreshString,
 		"strings.Repeat":              intrStringsRepeat,
+		"strings.Join":                intrFreshString,
 		"(*sync.RWMutex).Lock":        intrNoop,
 		"(*sync.RWMutex).Unlock":      intrNoop,
 		"(*sync.RWMutex).RLock":       intrNoop,
